@@ -320,6 +320,17 @@ structure MRes where
     objects -/
 def opNamesFollow : List String := ["Select", "SelectMany", "Where"]
 
+/-- `process_called_lambda`: the type each parameter gets - its keyword argument's (the last one of that name),
+    else its positional argument's, else `Any` -/
+def kwTy (p : String) : List String → List Ty → Option Ty
+  | k :: ks, t :: ts => match kwTy p ks ts with
+    | some t' => some t'
+    | Option.none => if k = p then some t else Option.none
+  | _, _ => Option.none
+
+def lamArgTys (ps : List String) (pos : List Ty) (kwn : List String) (kwt : List Ty) : Gamma :=
+  ps.zipIdx.map (fun (p, i) => (p, (kwTy p kwn kwt).getD (pos[i]?.getD .any)))
+
 mutual
 /-- `type_transformer.visit` (fuel: the follower is re-entered for nested lambdas) -/
 def follow (M : Model) : Nat → Gamma → FSt → Expr → Except Err FRes
@@ -465,6 +476,10 @@ def follow (M : Model) : Nat → Gamma → FSt → Expr → Except Err FRes
             | Option.none => .error (.valueError "Property was not decorated")
           | Option.none => .error (.internal "AttributeError")
         | _ => .error (.internal "AttributeError")
+      | .lam ps body => do
+        -- process_called_lambda: the body is followed after the arguments, parameters hiding outer names
+        let rb ← follow M fuel (lamArgTys ps (as'.map (·.2)) kwn (ks'.map (·.2)) ++ G) st2 body
+        pure ⟨.call (.lam ps rb.e) args' kwn kwv', rb.ty, rb.st⟩
       | _ => pure ⟨.call rf.e args' kwn kwv', .any, st2⟩
 def followL (M : Model) : Nat → Gamma → FSt → List Expr → Except Err (List (Expr × Ty) × FSt)
   | 0, _, _, _ => .error .fuel
